@@ -12,7 +12,8 @@ inside op i the recovered state must be one of the states between the last one k
 to be completely written (the implementation reported an empty write buffer) and the
 last state of op i.  Keys: `crash-between-remove-and-rename` (the snapshot file does
 not exist although data had been written), `crash-loses-written-state`,
-`torn-tail-append` (one more life after a cut write does not record its join).
+`torn-tail-append` (one more life after a cut write does not record its join),
+`stale-compact-file` (a path.compact left behind by the crash leaks into the next compaction).
 -/
 namespace SerfModel.Check.C11
 open SerfModel SerfModel.Check SerfModel.Snapshot SerfModel.Check.SnapCheck
@@ -106,12 +107,34 @@ def cuts (n : Nat) : List Nat :=
 def zzName : Name := ['z', 'z']
 def zzAddr : Addr := ['1', '0', '.', '9', '.', '9', '.', '9', ':', '1']
 
+def insertBytes (s : List Char) : List (List Char) → List (List Char)
+  | [] => [s]
+  | x :: xs => if hexOfChars s ≤ hexOfChars x then s :: x :: xs else x :: insertBytes s xs
+
+/-- byte-wise order of names (Go's sort.Strings) -/
+def sortBytes (l : List (List Char)) : List (List Char) := l.foldr insertBytes []
+
 def showRec (fs : FS) (r : RecState) : String :=
   s!"{b01 fs.main.isSome}{b01 fs.tmp.isSome};{showAlive r.alive};{r.clock};{r.eventClock};{r.queryClock}"
 
 def modelEntry (st : St) (k cut : Nat) (kind : String) : String :=
   let fs := FS.crashAt {} st.ops k cut
   if kind == "r" then s!"{k}.{cut}.r={showRec fs (recover st.rj fs)}"
+  else if kind == "c" then
+    -- one more life: drop every recovered member (sorted by name), join zz, compact, shutdown
+    let r0 := Snap.openOn st.rj st.mc fs
+    let fs1 := fs.applyAll r0.2
+    let names := sortBytes (r0.1.alive.map (·.1))
+    let go := names.foldl (fun (acc : Snap × FS) n =>
+      let r := Snapshot.step Order.id acc.1 (.gone [n] 1)
+      (r.1, acc.2.applyAll r.2)) (r0.1, fs1)
+    let r1 := Snapshot.step Order.id go.1 (.join [(zzName, zzAddr)] 1)
+    let fs2 := go.2.applyAll r1.2
+    let r2 := compact Order.id r1.1
+    let fs3 := fs2.applyAll r2.2
+    let r3 := shutdown Order.id r2.1 1
+    let fs4 := fs3.applyAll r3.2
+    s!"{k}.{cut}.c={showRec fs (recover st.rj fs4)}"
   else
     let r0 := Snap.openOn st.rj st.mc fs
     let fs1 := fs.applyAll r0.2
@@ -123,12 +146,17 @@ def modelEntry (st : St) (k cut : Nat) (kind : String) : String :=
 
 def modelCrashAll (st : St) : String :=
   let n := st.ops.length
-  let entries := (List.range (n + 1)).flatMap fun k =>
+  let r := (List.range (n + 1)).foldl (fun (acc : List String × Nat) k =>
+    let fsk := FS.crashAt {} st.ops k 0
     let base := [modelEntry st k 0 "r"]
-    match st.ops[k]? with
-    | some (.write .main d) => base ++ (cuts d.length).flatMap fun c => [modelEntry st k c "r", modelEntry st k c "j"]
-    | _ => base
-  s!"n={n} " ++ "|".intercalate entries
+    -- a `c` entry at the first three crash points where path.compact exists next to the snapshot
+    let both := k < n && fsk.main.isSome && fsk.tmp.isSome && acc.2 < 3
+    let base := if both then base ++ [modelEntry st k 0 "c"] else base
+    let ents := match st.ops[k]? with
+      | some (.write .main d) => base ++ (cuts d.length).flatMap fun c => [modelEntry st k c "r", modelEntry st k c "j"]
+      | _ => base
+    (acc.1 ++ ents, if both then acc.2 + 1 else acc.2)) ([], 0)
+  s!"n={n} " ++ "|".intercalate r.1
 
 structure Entry where
   k : Nat
@@ -167,6 +195,14 @@ def judgeEntry (st : St) (all : List Entry) (e : Entry) : Option (String × Stri
         s!"crash before operation {e.k}: the snapshot file does not exist although data had been written; the restart recovers [{entKey e}], none of {allowed}")
     else some ("crash-loses-written-state",
         s!"crash before operation {e.k} (cut {e.cut}): the restart recovers [{entKey e}], which is none of the states between the last completely written one and the current one {allowed}")
+  else if e.kind == "c" then
+    match all.find? (fun r => r.kind == "r" && r.k == e.k && r.cut == e.cut) with
+    | none => none
+    | some r =>
+      let want := showAlive [(zzName, zzAddr)]
+      if e.alive == want && e.c == r.c && e.e == r.e && e.q == r.q then none
+      else some ("stale-compact-file",
+        s!"crash before operation {e.k} (path.compact left behind), then one more life that drops every member, joins zz and compacts: the next restart recovers [{entKey e}], expected alive [{want}] and the clocks of [{entKey r}]")
   else
     match all.find? (fun r => r.kind == "r" && r.k == e.k && r.cut == e.cut) with
     | none => none
